@@ -309,6 +309,66 @@ func init() {
 			for _, s := range sites {
 				x.guardedSite("func="+prog.FnName(p.Pusher)+" site=NewFromChange guard=ClientSeq>stored", s, []Cmp{cmp}, nil)
 			}
+			// siblings: wherever else package packs hands the request's changes to a document or to the store
+			// (change.NewPack → ApplyChangePack in the snapshot pull), they are selected the same way — the
+			// unfiltered request list (Pack.Changes of a *change.Pack parameter) is never the argument
+			packChanges := x.P.Field(changePkg + ".Pack.Changes")
+			newPack := x.P.FnObj(changePkg + ".NewPack")
+			if packChanges != nil && newPack != nil {
+				nsib := 0
+				for _, fn := range x.P.FuncsIn("server/packs") {
+					if fn == p.Pusher {
+						continue
+					}
+					// only a function that receives the request pack can apply request changes
+					hasReq := false
+					for _, pm := range fn.Params {
+						if pt, ok := pm.Type().(*types.Pointer); ok && isNamed(pt.Elem(), x.P.Named(changePkg+".Pack")) {
+							hasReq = true
+						}
+					}
+					if !hasReq {
+						continue
+					}
+					nsib = 0
+					isReqChanges := func(w ssa.Value) bool {
+						if prog.LoadedField(w) != packChanges {
+							return false
+						}
+						return prog.Reaches(prog.FieldBase(w), func(u ssa.Value) bool {
+							pm, ok := u.(*ssa.Parameter)
+							return ok && pm.Parent() == fn
+						})
+					}
+					for _, c := range callsToIn(fn, newPack) {
+						arg := paramArg(c, 2)
+						if arg == nil {
+							continue
+						}
+						if k, isK := arg.(*ssa.Const); isK && k.IsNil() {
+							continue
+						}
+						nsib++
+						key := fmt.Sprintf("func=%s site=NewPack#%d request-changes-filtered", prog.FnName(fn), nsib)
+						if prog.Reaches(arg, isReqChanges) {
+							x.fail(key, x.pos(c), "the whole request list (reqPack.Changes) is applied to the rebuilt document: the changes of a retried request that an earlier attempt already stored are in that document already and are applied a second time (the snapshot counts the edit twice)")
+							continue
+						}
+						// built by append: every append of a request change sits on the ClientSeq > stored edge
+						okAll, any := true, false
+						for _, ap := range builtinCalls(fn, "append") {
+							if !prog.DependsOn(arg, func(w ssa.Value) bool { return w == ssa.Value(ap) }) && !prog.Reaches(arg, func(w ssa.Value) bool { return w == ssa.Value(ap) }) {
+								continue
+							}
+							any = true
+							if !x.quietGuarded(ap, []Cmp{cmp}) {
+								okAll = false
+							}
+						}
+						x.check(any && okAll, key, x.pos(c), "only changes with ClientSeq > the stored checkpoint's ClientSeq are applied", "the changes applied to the rebuilt document are not selected by ClientSeq > stored ClientSeq, the way the push selects what it stores")
+					}
+				}
+			}
 			// continuity validation: a callee of PushPull dominating the push, with a Checkpoint parameter
 			var pushCallInPP ssa.CallInstruction
 			for _, c := range x.callsReaching(p.PushPull, p.CreateCI) {
